@@ -17,7 +17,7 @@ from .engine import execute, jdump
 from .rng import derive
 
 VERIF = os.path.dirname(os.path.dirname(os.path.abspath(__file__)))
-RUN_TIMEOUT_S = 120
+RUN_TIMEOUT_S = 300
 
 
 def load_prop(pid: str):
